@@ -32,6 +32,25 @@ def run(chk, replay=None):
         p = Prog(text, [], "uncalled/%d" % i, params=[("P", t, v), ("Q", t, gen.gen_val(rng, t))])
         extra.append(p)
     progs += extra
+    # arguments of aggregate type used in an order-sensitive way: a list folded with a non-commutative function, an array and a
+    # tuple taken apart component by component (the argument must arrive element for element where the literal would)
+    from checks.c08 import F_ORDER
+    for i in range(12 if quick else 120):
+        k = rng.choice([1, 2, 3, 4])
+        n = rng.randrange(0, 1 << k)
+        lt = ("L", ("U", 3), k)
+        lv = ("li", ("U", 3), k, tuple(("u", 3, rng.randrange(256)) for _ in range(n)))
+        at = ("A", ("U", 3), 3)
+        av = gen.gen_val(rng, at)
+        tt = ("T", (("U", 3), ("U", 3), ("U", 3), ("U", 3), ("U", 3)))
+        tv = gen.gen_val(rng, tt)
+        text = ("%s\nfn main() { let r: u8 = fold::<f, %d>(param::L, %d); let [a0, a1, a2]: [u8; 3] = param::A; let (t0, t1, t2, t3, t4): (u8, u8, u8, u8, u8) = param::T; "
+                "let m: u8 = jet::xor_8(jet::xor_8(r, jet::left_rotate_8(1, a0)), jet::xor_8(jet::left_rotate_8(2, a1), jet::left_rotate_8(3, a2))); "
+                "let q: u8 = jet::xor_8(jet::xor_8(jet::left_rotate_8(1, t0), jet::left_rotate_8(2, t1)), jet::xor_8(jet::left_rotate_8(3, t2), jet::xor_8(jet::left_rotate_8(4, t3), jet::left_rotate_8(5, t4)))); "
+                "assert!(jet::eq_8(jet::xor_8(m, q), witness::EXPECT)); }") % (F_ORDER, 1 << k, rng.randrange(256))
+        p = Prog(text, [("EXPECT", ("U", 3))], "aggregate/%d" % i, params=[("L", lt, lv), ("A", at, av), ("T", tt, tv)])
+        p.observe = 3
+        progs.append(p)
     # (a) parameters() reports exactly the param:: occurrences
     res = impl("core", ["(params %s)" % quote(g.text) for g in progs])
     ok_progs = []
